@@ -17,4 +17,4 @@ ASSUMPTIONS = ["SeqCst atomics; threadpool::join waits for all queued jobs",
 
 
 def run(ctx):
-    return [r_cli.rule_atomic(ctx, "C19"), r_cli.rule_exit(ctx, "C19"), r_cli.rule_workers(ctx, "C19"), r_cli.rule_fs(ctx, "C19"), r_cli.rule_no_state(ctx, "C19"), r_cli.rule_loop_exit(ctx, "C19"), r_cli.rule_job_only_in_pool(ctx, "C19")]
+    return [r_cli.rule_atomic(ctx, "C19"), r_cli.rule_exit(ctx, "C19"), r_cli.rule_workers(ctx, "C19"), r_cli.rule_fs(ctx, "C19"), r_cli.rule_no_state(ctx, "C19"), r_cli.rule_loop_exit(ctx, "C19"), r_cli.rule_job_only_in_pool(ctx, "C19"), r_cli.rule_walk(ctx, "C19", dedup_only=True)]
